@@ -44,6 +44,14 @@ impl<VM: VMBinding, P: GenerationalPlanExt<VM> + PlanTraceObject<VM>>
     fn flush_modbuf(&mut self) {
         let buf = self.modbuf.take();
         if !buf.is_empty() {
+            #[cfg(mmtk_verif)]
+            crate::verif::emit(|| {
+                format!(
+                    "\"ev\":\"ModbufFlush\",\"n\":{},\"objs\":{}",
+                    buf.len(),
+                    crate::verif::proj_addrs(buf.iter().map(|o| o.to_raw_address()))
+                )
+            });
             self.mmtk.scheduler.work_buckets[WorkBucketStage::Closure].add(ProcessModBuf::<
                 GenNurseryTrace<VM, P, DEFAULT_TRACE>,
             >::new(buf));
@@ -53,6 +61,14 @@ impl<VM: VMBinding, P: GenerationalPlanExt<VM> + PlanTraceObject<VM>>
     fn flush_region_modbuf(&mut self) {
         let buf = self.region_modbuf.take();
         if !buf.is_empty() {
+            #[cfg(mmtk_verif)]
+            crate::verif::emit(|| {
+                format!(
+                    "\"ev\":\"RegionFlush\",\"n\":{},\"starts\":{}",
+                    buf.len(),
+                    crate::verif::proj_addrs(buf.iter().map(|r| r.start()))
+                )
+            });
             debug_assert!(!buf.is_empty());
             self.mmtk.scheduler.work_buckets[WorkBucketStage::Closure]
                 .add(ProcessRegionModBuf::<GenNurseryTrace<VM, P, DEFAULT_TRACE>>::new(buf));
@@ -77,6 +93,13 @@ impl<VM: VMBinding, P: GenerationalPlanExt<VM> + PlanTraceObject<VM>> BarrierSem
         _target: Option<ObjectReference>,
     ) {
         // enqueue the object
+        #[cfg(mmtk_verif)]
+        crate::verif::emit(|| {
+            format!(
+                "\"ev\":\"BarrierSlow\",\"src\":{}",
+                crate::verif::proj_addr(src.to_raw_address())
+            )
+        });
         self.modbuf.push(src);
         self.modbuf.is_full().then(|| self.flush_modbuf());
     }
@@ -87,6 +110,15 @@ impl<VM: VMBinding, P: GenerationalPlanExt<VM> + PlanTraceObject<VM>> BarrierSem
             Some(obj) => self.plan.is_object_in_nursery(obj),
             None => self.plan.is_address_in_nursery(dst.start()),
         };
+        #[cfg(mmtk_verif)]
+        crate::verif::emit(|| {
+            format!(
+                "\"ev\":\"RegionSlow\",\"dst\":{},\"words\":{},\"remembered\":{}",
+                crate::verif::proj_addr(dst.start()),
+                dst.bytes() >> 3,
+                !dst_in_nursery
+            )
+        });
         // Only enqueue array slices in mature spaces
         if !dst_in_nursery {
             // enqueue
